@@ -258,7 +258,7 @@ def display_call_exact(chk, F, rule, cfg):
         for k, x in toks:
             if k == 'lit':
                 got += x
-            elif mentions(x, lambda y: y[0] == 'ref' and y[1][1][-2:] == (('f', 'info'), ('f', 'path'))) or field_path(x)[1][-2:] == ['info', 'path']:
+            elif mentions(x, lambda y: y[0] == 'ref' and y[1][0] == ('ptr', ('param', 0, 1)) and y[1][1][-1:] == (('f', 'path'),)) or (field_path(x)[0] == ('param', 0, 1) and field_path(x)[1][-1:] == ['path']):
                 got += '<path>'
             elif mentions(x, lambda y: y[0] == 'as' and y[2] == 'Some' and mentions(y, lambda z: z[0] == 'call' and re.search(r'Iterator>?::next$|<impl \[T\]>::split_first$', z[1]))) or \
                     mentions(x, lambda y: y[0] == 'ref' and ('dc', 'Some') in y[1][1] and mentions(y[1][0], lambda z: z[0] == 'call' and re.search(r'Iterator>?::next$', z[1]))):
@@ -283,7 +283,7 @@ def display_call(chk, F, rule, cfg):
         ws = [e for e in p.calls(r'Formatter::write_fmt$|Formatter::write_str$')]
         if ws:
             first = ws[0].data[2][1]
-            ok = mentions(first, lambda x: x[0] == 'ref' and x[1][0] == ('ptr', ('param', 0, 1)) and x[1][1][-2:] == (('f', 'info'), ('f', 'path')))
+            ok = mentions(first, lambda x: x[0] == 'ref' and x[1][0] == ('ptr', ('param', 0, 1)) and x[1][1][-1:] == (('f', 'path'),))
             chk.ob(rule, 'the rendering starts with Trait::method', ok, config=cfg, fn=fn, site='path-first', what='first write %s' % show(first)[:80], found=show(first)[:160])
         # per element
         for d in p.decisions:
@@ -315,7 +315,7 @@ def display_call(chk, F, rule, cfg):
         vals = written_values(p)
         txt = ' '.join(show(v) for v in vals)
         if var == 'Debug':
-            ok = all(k in txt for k in ('pat_debug', 'file', 'line')) and 'info.path' in txt.replace(').', '.')
+            ok = all(k in txt for k in ('pat_debug', 'file', 'line')) and re.search(r'\.path\b', txt) is not None
             chk.ob(rule, 'a pattern with matcher debug info is named by its source text and file:line', ok, config=cfg, fn=cpd, site='pattern:debug', what='CallPatternDebug(Debug) renders %s' % sorted(k for k in ('pat_debug', 'file', 'line', 'path') if k in txt))
         elif var == 'PatIndex':
             ok = 'PatIndex' in txt and 'path' in txt
@@ -326,7 +326,8 @@ def display_call(chk, F, rule, cfg):
     for p in symex.Interp(F, inline=lambda f, d, n: f.defp.endswith('::debug_inputs') and 'DynCtx' in f.defp).run(fc):
         r = strip(p.outcome[1])
         d = dict(r[4]) if r[0] == 'agg' else {}
-        ok = field_path(d.get('info', ('unk', ''))) == (('param', 0, 1), ['info']) and is_call(d.get('inputs_debug', ('unk', '')), r'core::ops::Fn::call$') and \
+        who_ = d.get('info', d.get('path', ('unk', '')))
+        ok = field_path(who_) in ((('param', 0, 1), ['info']), (('param', 0, 1), ['info', 'path'])) and is_call(d.get('inputs_debug', ('unk', '')), r'core::ops::Fn::call$') and \
             mentions(d['inputs_debug'], lambda x: x[0] == 'field' and x[2] == 'input_debugger' or (x[0] == 'ref' and x[1][1][-1:] == (('f', 'input_debugger'),)))
         chk.ob(rule, 'the reported call = (this method\'s info, the renderings produced by the input debugger)', ok, config=cfg, fn=fc, site='fn_call', what='fn_call %s' % show(r)[:100], found=show(r)[:200])
     ev = F.fn('eval::eval')
@@ -408,7 +409,8 @@ def expected_pattern_lookup(chk, F, rule, cfg):
                 n += 1
                 lookups = list(q.calls(r'FnMocker::find_call_pattern_for_call_order$'))
                 dbg = list(q.calls(r'FnMocker::debug_pattern$'))
-                okl = all(field_path(l.data[2][0])[0] == ('param', 0, 2) and 'ordered_call_index' in show(l.data[2][1]) for l in lookups)
+                # (looked up in this element's table, with what the closure captured from the caller - the order position, whatever it is called)
+                okl = all(field_path(l.data[2][0])[0] == ('param', 0, 2) and ('ordered_call_index' in show(l.data[2][1]) or field_path(l.data[2][1])[0] == ('param', 0, 1)) for l in lookups)
                 okd = True
                 for d in dbg:
                     idx = strip(d.data[2][1])
@@ -437,7 +439,7 @@ def pattern_indices(chk, F, rule, cfg):
         if ok:
             n += 1
             info, loc = strip(news[0].data[2][0]), strip(news[0].data[2][1])
-            ok = field_path(info) == (('param', 0, 1), ['info']) and loc[0] == 'agg'
+            ok = field_path(info) in ((('param', 0, 1), ['info']), (('param', 0, 1), ['info', 'path'])) and loc[0] == 'agg'      # (this method's info, or just its Trait::method path)
             if ok and loc[3] == 'PatIndex':
                 ok = strip(loc[4][0][1]) == ('param', 0, 2)
             elif ok:
